@@ -196,8 +196,9 @@ class Boc:
         bits_descriptor = data[1]
         is_augmented = bits_descriptor & 1
         data_size = (bits_descriptor >> 1) + is_augmented
-        hashes_size = (level + 1) * 32 if has_hashes else 0
-        depth_size = (level + 1) * 2 if hashes_size else 0
+        hashes_count = bin(level).count('1') + 1  # `level` holds the level mask: one stored hash per significant level
+        hashes_size = hashes_count * 32 if has_hashes else 0
+        depth_size = hashes_count * 2 if hashes_size else 0
         i = 2
 
         if data_len - i < hashes_size + depth_size + data_size + ref_index_size * total_refs:
